@@ -21,6 +21,10 @@ THEOREMS = [
     "C27_record_roundtrip",
     "C27_wait_replay_exact",
     "C27_wait_fresh_records",
+    "C27_replaying_source_shape",
+    "C27_last_replayed_tick_live",
+    "C27_replay_over_stays_over",
+    "C27_replay_flags",
     "C27_refuted_timer",
     "C27_replay_partial",
     "C27_refuted_purge",
@@ -43,7 +47,14 @@ EXPLANATION = (
     "and diffed; the real DBOSRuntime + control loop + InternalDBOSAdapter run generated workflows against a stand-in `dbos` "
     "module under the virtual-time loop, a snapshot of the durable state is taken after every durable write and around every "
     "journal INSERT, each snapshot is recovered in a new process, every wait_for_next_task call of fresh and recovered runs is "
-    "diffed against the model, and monitors compare completion order, ticks, published events, journal and result."
+    "diffed against the model, and monitors compare completion order, ticks, published events, journal and result. The same "
+    "workflows also run behind the server's adapter chain (real ServerRuntimeDecorator / _ServerInternalRunAdapter, optionally the "
+    "EventInterceptorDecorator, real SqliteWorkflowStore on the system database file): every committed store row is one more stop "
+    "point (so every instant between a journal INSERT and the end of the publication of that completion's tick is tried), and a "
+    "monitor compares the STORED published events and the handler row after stop + recovery with the uninterrupted run and with what "
+    "the recovered control loop published, without consulting is_replaying(). is_replaying() itself is modelled (Adapter.isReplaying = "
+    "journal cursor; C27_last_replayed_tick_live, C27_replay_over_stays_over, C27_replay_flags) and queried after every wait call in "
+    "all three correspondence streams."
 )
 LEVEL_TEXT = ("partial: proof (Lean 4) of the journal/replay model + correspondence with the real TaskJournal, SqliteJournalCrud, "
               "wait_for_next_task and DBOSRuntime glue running against a STAND-IN dbos module; DBOS, PostgreSQL and SQLAlchemy are absent "
@@ -56,9 +67,15 @@ ASSUMPTIONS = [
     "what executes for real: all of task_journal.py; SqliteJournalCrud of crud.py; of runtime.py: DBOSRuntime.__init__/"
     "track_workflow/register/launch/_prepare_launch/_finalize_launch/_post_launch/run_migrations(sqlite)/run_workflow/"
     "get_internal_adapter/get_external_adapter/_get_sql_engine, InternalDBOSAdapter (all methods), ExternalDBOSAdapter.get_result/"
-    "send_event/_ensure_workflow_started, _durable_time; the real control loop, reducer and step wrappers. NOT executed "
-    "(modelled or out of scope): PostgresJournalCrud and every asyncpg path (SQL text only, extracted), executor leases, "
-    "DBOSWorkflowStore, build_server_runtime / idle release (C26, C36), destroy",
+    "send_event/_ensure_workflow_started, _durable_time, create_workflow_store + the DBOSWorkflowStore proxy (SQLite branch); of the "
+    "server package: ServerRuntimeDecorator (launch, run_workflow, run_workflow_handler, get_internal_adapter, _handle_status_update), "
+    "_ServerInternalRunAdapter, EventInterceptorDecorator, SqliteWorkflowStore (append_event, update, query, create_state_store); the real "
+    "control loop, reducer and step wrappers. NOT executed (modelled or out of scope): PostgresJournalCrud and every asyncpg path (SQL "
+    "text only, extracted), executor leases, TickPersistenceDecorator / DBOSIdleReleaseDecorator of build_server_runtime (C26, C36), destroy",
+    "stored events: an event may legitimately be stored twice (at-least-once) when the crashed process had stored it and its tick cannot be "
+    "known to be complete at the stop: the tick of the last journaled completion, and - as the code is - the ticks reduced before the "
+    "journal is first read (is_replaying() is False until the first wait_for_next_task call); these are counted (store_duplicates:*), not "
+    "reported; any other duplicate and any loss is a violation",
     "memoisation is a hypothesis of the theorems: a task's value is whatever the durable memo holds under its function id",
     "determinism of the control loop (`step` is a function of the observed completions) is the engine correspondence of C11",
     "step bodies are at-least-once: a step interrupted after ctx.send_event and before its output is recorded runs again on recovery "
@@ -74,7 +91,8 @@ TRUSTED_EXTRA = [
     "DBOS.workflow, DBOS.step (sync+async), start_workflow_async, retrieve_workflow_async, delete_workflow_async, send, send_async, "
     "recv_async, write_stream_async, read_stream_async, SetWorkflowID, WorkflowHandleAsync, _context.get_local_dbos_context, "
     "_dbos._get_dbos_instance (._sys_db.engine, ._app_db, ._config), _error.DBOSNonExistentWorkflowError/DBOSUnexpectedStepError",
-    "harness/dbos_standin/runs.py: processes, crash snapshots and recovery on the stand-in (inline executor, observers)",
+    "harness/dbos_standin/runs.py: processes, crash snapshots and recovery on the stand-in (inline executor, observers; server mode: "
+    "build_stack, observers on SqliteWorkflowStore.append_event/update and on _ServerInternalRunAdapter.write_to_event_stream)",
     "pyshims/asyncpg, pyshims/sqlalchemy: name-only import shims (Pool, Connection, Record, UniqueViolationError, create_pool, "
     "connect, pool.PoolConnectionProxy; engine.URL, engine.Engine)",
     "harness/gen/journal.py: AST extraction of journal call sites, write order, SQL and key formats",
@@ -145,6 +163,15 @@ class JournalImpl:
         self.crud = self.Crud(db_path=self.path)
         self.run = ""
         self.tj = self.TJ("", self.crud)
+        self.adapter = self._new_adapter("")
+
+    def _new_adapter(self, run: str) -> Any:
+        """the real InternalDBOSAdapter of a new process (SQLite configured), holding this process's TaskJournal"""
+        import llama_agents.dbos.runtime as RT
+
+        a = RT.InternalDBOSAdapter(run, None, None, db_path=self.path)
+        a._journal = self.tj  # what _get_or_create_journal() would create lazily
+        return a
 
     def show_tj(self) -> str:
         es = self.tj._entries
@@ -178,6 +205,7 @@ class JournalImpl:
                 return "bad-op"
             self.run = f[1]
             self.tj = self.TJ(self.run, self.crud)
+            self.adapter = self._new_adapter(self.run)
             return "ok"
         if f == ["load"]:
             _sync(self.tj.load())
@@ -189,6 +217,8 @@ class JournalImpl:
             return "1" if self.tj.is_replaying() else "0"
         if f == ["has"]:
             return "1" if self.tj.has_entries else "0"
+        if f == ["areplaying"]:
+            return "1" if self.adapter.is_replaying() else "0"
         if f == ["advance"]:
             self.tj.advance()
             return self.show_tj()
@@ -261,7 +291,7 @@ def gen_k1_stream(rng: random.Random, n: int) -> list[str]:
         elif r < 0.32:
             ops.append("load")
         elif r < 0.42:
-            ops.append(rng.choice(["next", "replaying", "has"]))
+            ops.append(rng.choice(["next", "replaying", "has", "areplaying", "areplaying"]))
         elif r < 0.50:
             ops.append("advance")
         elif r < 0.58:
@@ -309,7 +339,8 @@ def k1(env: Env, out: Outcome, workdir: str) -> None:
     streams: list[list[str]] = []
     # hand-picked: out-of-order raw inserts then load; record after reload; purge with and without entries
     streams.append(["new", "boot|r1", "insert|r1|2|c:0", "insert|r1|0|a:0", "insert|r2|0|b:1", "insert|r1|1|b:0", "rawload|r1", "load",
-                    "next", "advance", "next", "advance", "advance", "next", "replaying", "record|a:1", "rawload|r1", "dump",
+                    "areplaying", "next", "advance", "areplaying", "next", "advance", "areplaying", "advance", "areplaying", "next", "replaying",
+                    "record|a:1", "areplaying", "rawload|r1", "dump",
                     "boot|r1", "load", "has", "addop|r1|5|x", "addop|r1|9|y", "addop|r2|9|z", "purge|5", "boot|r2", "purge|0", "dump",
                     "boot|r3", "has", "purge|0", "record|a:0", "record|a:0", "boot|r3", "load", "truncate|r3|1", "rawload|r3", "dump"])
     streams.append(["new", "boot|r1"] + MALFORMED + ["dump"])
@@ -322,7 +353,7 @@ def k1(env: Env, out: Outcome, workdir: str) -> None:
     out.evaluations += len(flat)
     out.traces_validated += len(streams)
     for l in flat:
-        out.count("k1_op:" + l.split("|")[0] if l.split("|")[0] in ("new", "boot", "load", "next", "replaying", "has", "advance", "record", "purge", "insert", "rawload", "delete", "truncate", "purgeops", "addop", "dump") else "k1_op:malformed")
+        out.count("k1_op:" + l.split("|")[0] if l.split("|")[0] in ("new", "boot", "load", "next", "replaying", "areplaying", "has", "advance", "record", "purge", "insert", "rawload", "delete", "truncate", "purgeops", "addop", "dump") else "k1_op:malformed")
     d = diff_streams(MODEL, flat, model_out, impl_out, context="K1 TaskJournal/SqliteJournalCrud")
     if d is not None:
         out.divergences.append(d)
@@ -447,6 +478,8 @@ def k2(env: Env, out: Outcome, workdir: str) -> None:
                     tr.journal_now = R._journal_rows(path, "r1")
                     lines.append("boot|r1")
                     impl_out.append("ok")
+                    lines.append("areplaying")
+                    impl_out.append("1" if adapter.is_replaying() else "0")
                     continue
                 if step["op"] == "addop":
                     conn = sqlite3.connect(path)
@@ -483,6 +516,8 @@ def k2(env: Env, out: Outcome, workdir: str) -> None:
                 wc = tr.waits[n0]
                 lines.append(wait_line(wc))
                 impl_out.append(wait_out(wc))
+                lines.append("areplaying")
+                impl_out.append("1" if adapter.is_replaying() else "0")
                 lines.append("dump")
                 impl_out.append(impl0.dump())
 
@@ -527,6 +562,8 @@ def k3_lines(tr: Any, initial_rows: list) -> tuple[list[str], list[str]]:
     for wc in tr.waits:
         lines.append(wait_line(wc))
         impl.append(wait_out(wc))
+        lines.append("areplaying")
+        impl.append("1" if wc.replaying_after else "0")
     return lines, impl
 
 
@@ -636,7 +673,147 @@ def check_recovery(ref: Any, snap: dict, rec: Any, case: dict, out: Outcome, det
     return "bad"
 
 
-def run_case(spec: dict, seed: int, out: Outcome, env: Env, *, actions: list[int] | None = None, select: Any = None,
+def _multiset(xs: list) -> dict:
+    d: dict = {}
+    for x in xs:
+        d[x] = d.get(x, 0) + 1
+    return d
+
+
+def _is_subsequence(small: list, big: list) -> bool:
+    it = iter(big)
+    return all(any(x == y for y in it) for x in small)
+
+
+def tick_windows(ref: Any, k: int) -> tuple[int, tuple[int, int]]:
+    """from the uninterrupted run alone: (number of ticks reduced before its first wait_for_next_task call,
+    (lo, hi]) = the ticks reduced between the return of the call that delivered the k-th journaled completion and
+    the next call (the "boundary" tick(s) of a stop with k journal rows).  Counted as `len(ticks)` at publication."""
+    first = ref.waits[0].ticks_before if ref.waits else len(ref.ticks)
+    if k == 0:
+        return first, (0, 0)
+    seen = 0
+    for i, w in enumerate(ref.waits):
+        if w.returned is not None:
+            seen += 1
+            if seen == k:
+                hi = ref.waits[i + 1].ticks_before if i + 1 < len(ref.waits) else len(ref.ticks)
+                return first, (w.ticks_before, hi)
+    return first, (len(ref.ticks), len(ref.ticks))
+
+
+def check_store(ref: Any, snap: dict, rec: Any, case: dict, out: Outcome, *, det: bool = True, bound_duplicates: bool = True,
+                uninterrupted: Any = None) -> None:
+    """server mode, clean stop point, replay verified equal (tag ok): the published events as STORED in the workflow
+    store (both process lives together).  Nothing here consults `is_replaying()`; what is expected is recomputed from the
+    uninterrupted run `ref`, the stop point, and what the recovered control loop itself handed to the adapter.
+      (1) every event the uninterrupted run published up to and including the tick of the last journaled completion
+          (that part of the execution is fixed by the journal) is in the store, in order;
+      (2) from that tick on, the recovered process stores exactly what its control loop publishes (the crashed process
+          cannot be known to have published any of it);
+      (3) the stored handler status/result is that of the run (and of the uninterrupted run, for deterministic workflows);
+      (4) an event of an earlier tick is not stored again - except the ticks reduced before the journal is first read.
+    `ref` is the process that was stopped (the uninterrupted run itself, or - second level - a recovered process whose own
+    schedule made the journal being replayed); `uninterrupted` is the uninterrupted run (default: `ref`)."""
+    uninterrupted = uninterrupted if uninterrupted is not None else ref
+    k = len(snap["journal"])
+    where = f"stop point {snap['kind']} after {snap['writes']} durable writes, journal length {k}, {snap.get('stored', '?')} events stored"
+    first, (lo, hi) = tick_windows(ref, k)
+    if k == 0:
+        lo, hi = 0, first  # nothing journaled: the ticks before the first wait call are the fixed part, and all of it is "boundary"
+    if len(uninterrupted.store_appends) != len(uninterrupted.store_events) or \
+            [e for (_s, e) in uninterrupted.published] != [e for (_s, e) in uninterrupted.store_appends]:
+        out.violations.append(Violation("C27/uninterrupted_run_did_not_store_what_it_published",
+                                        f"{where}: {len(uninterrupted.published)} published, {len(uninterrupted.store_appends)} appends seen, "
+                                        f"{len(uninterrupted.store_events)} rows", case))
+        return
+
+    def window(stamp: int) -> str:
+        if lo < stamp <= hi:
+            return "last_journaled_tick" if k >= 1 else "before_first_wait"
+        if stamp <= first:
+            return "before_first_wait"
+        return "replayed_part" if stamp <= lo else "fresh_part"
+
+    def short(ev: str) -> str:
+        t, _, v = ev.partition(":")
+        if t == "StepStateChanged":
+            try:
+                d = json.loads(v)
+                return f"StepStateChanged({d.get('name')},{d.get('step_state')})"
+            except Exception:  # noqa: BLE001
+                pass
+        return t
+
+    got = rec.store_events
+    terminal_ev = ref.published[-1][1] if ref.published and ref.outcome[0] == "result" else None
+    # ---- (1) the fixed part: what the stopped process's control loop published up to the end of the last journaled tick
+    fixed = [(st, ev) for (st, ev) in ref.published if st <= hi]
+    gm = _multiset(got)
+    lost: list[tuple] = []
+    for ev, n in _multiset([ev for (_st, ev) in fixed]).items():
+        miss = n - gm.get(ev, 0)
+        if miss > 0:
+            lost += [(st, e) for (st, e) in fixed if e == ev][-miss:]
+    rule1 = bool(lost)
+    # ---- (2) from the boundary tick on: stored by the recovered process == published by its control loop
+    pub = [(st, ev) for (st, ev) in rec.published if st > lo]
+    app = [(st, ev) for (st, ev) in rec.store_appends if st > lo]
+    if not lost and [e for (_s, e) in pub] != [e for (_s, e) in app]:
+        am = _multiset([e for (_s, e) in app])
+        for ev, n in _multiset([e for (_s, e) in pub]).items():
+            miss = n - am.get(ev, 0)
+            if miss > 0:
+                lost += [(st, e) for (st, e) in pub if e == ev][-miss:]
+    if lost:
+        lost.sort(key=lambda p: p[0])
+        wins = sorted({window(st) for (st, _e) in lost})
+        # the terminal event of the run (the StopEvent that completes it) is among the lost ones
+        term = int(any(ev == terminal_ev for (_st, ev) in lost) or
+                   (rec.outcome[0] == "result" and bool(rec.published) and rec.published[-1] in lost))
+        out.violations.append(Violation(
+            f"C27/published_event_never_stored_after_recovery[tick={'+'.join(wins)},terminal_event={term}]",
+            f"{where}: after the stop and the recovery the workflow store holds {len(got)} events of the run and lacks "
+            f"{[short(e) + '@tick' + str(st) for (st, e) in lost]}"
+            + (f" which the stopped process published before the stop or would have published for its last journaled completion "
+               f"(uninterrupted run: {len(uninterrupted.store_events)} stored)" if rule1 else " which the recovered control loop published")
+            + f"; recovered process stored {[short(e) for (_s, e) in rec.store_appends]}", case))
+    elif not _is_subsequence([ev for (_st, ev) in fixed], got):
+        out.violations.append(Violation("C27/stored_events_reordered_after_recovery",
+                                        f"{where}: the store does not hold the {len(fixed)} events of the journaled part in the uninterrupted run's order", case))
+    # ---- (3) handler status / result
+    if rec.outcome[0] == "result":
+        want_h = uninterrupted.handler if det else ("completed", rec.handler[1] if rec.handler else None)
+        if rec.handler is None or rec.handler[0] != "completed" or (det and rec.handler != want_h):
+            u, r = (want_h or ("<no row>", None)), (rec.handler or ("<no row>", None))
+            out.violations.append(Violation(
+                f"C27/handler_status_differs_after_recovery[uninterrupted={u[0]},recovered={r[0]}]",
+                f"{where}: the recovered run finished ({R_canon(rec.outcome)}) but the stored handler is {r}, uninterrupted run: {u}", case))
+    # ---- (4) stored again
+    again = [(st, ev) for (st, ev) in rec.store_appends if st <= lo]
+    for st, ev in again:
+        out.count("store_duplicates:" + window(st))
+    fm = _multiset([e for (_s, e) in fixed])
+    for ev, n in fm.items():
+        if gm.get(ev, 0) > n:
+            for w_ in sorted({window(st) for (st, e) in fixed if e == ev}):
+                out.count("store_duplicates_events:" + w_)
+    bad = [(st, ev) for (st, ev) in again if window(st) != "before_first_wait"]
+    if bound_duplicates and bad and not lost:
+        out.violations.append(Violation(
+            f"C27/published_event_stored_again_after_recovery[tick={'+'.join(sorted({window(st) for (st, _e) in bad}))}]",
+            f"{where}: the recovered process stored {[short(e) + '@tick' + str(st) for (st, e) in bad]} again although the crashed process had "
+            f"journaled a later completion (so it had published them)", case))
+    out.count("store_checked")
+
+
+def R_canon(outcome: tuple) -> str:
+    from ..dbos_standin import runs as R
+
+    return R.canon_result(outcome)
+
+
+def run_case(spec: dict, seed: int, out: Outcome, env: Env, *, server: dict | None = None, actions: list[int] | None = None, select: Any = None,
              max_recover: int = 1000, other_p: float = 0.0, det: bool = True, second_level: int = 0, name: str = "") -> None:
     from ..dbos_standin import runs as R
 
@@ -645,12 +822,19 @@ def run_case(spec: dict, seed: int, out: Outcome, env: Env, *, actions: list[int
     def snap_filter(kind: str, meta: dict) -> bool:
         if kind in ("wf_end",):
             return False
-        if kind.startswith("journal_"):
+        if kind.startswith("journal_") or kind.startswith("store_"):
             return True
         return frng.random() < other_p
 
-    ref = R.fresh_run(spec, seed, snap_filter=snap_filter, replay_actions=actions)
-    base_case = {"kind": "recover", "spec": spec, "seed": seed, "actions": list(ref.actions), "other_p": other_p, "det": det, "name": name}
+    ref = R.fresh_run(spec, seed, snap_filter=snap_filter, replay_actions=actions, server=server)
+    base_case = {"kind": "recover", "spec": spec, "seed": seed, "actions": list(ref.actions), "other_p": other_p, "det": det, "name": name,
+                 "server": server}
+    if server:
+        out.count("fresh_runs:server" + ("+interceptor" if server.get("intercept") else ""))
+        out.count("stored_events", len(ref.store_events))
+        if det and ref.outcome[0] == "result" and (ref.handler is None or ref.handler[0] != "completed" or not ref.store_events):
+            out.violations.append(Violation("C27/uninterrupted_run_not_stored_as_completed",
+                                            f"{name}: handler {ref.handler}, {len(ref.store_events)} stored events", dict(base_case, snapshot=None)))
     out.evaluations += 1
     out.count("fresh_runs")
     out.count("fresh_outcome:" + ref.outcome[0])
@@ -667,9 +851,11 @@ def run_case(spec: dict, seed: int, out: Outcome, env: Env, *, actions: list[int
     if select is not None:
         snaps = [s for s in snaps if select(s)]
     if len(snaps) > max_recover:
-        # every journal length first (pre and post INSERT), the rest sampled
-        jr = [s for s in snaps if s["kind"].startswith("journal_")]
-        rest = [s for s in snaps if not s["kind"].startswith("journal_")]
+        # every journal length first (pre and post INSERT), the rest sampled; in server mode the stops between a journal
+        # INSERT and the end of the publication of that completion's tick come first
+        prio = ("journal_post_insert", "store_") if server else ("journal_",)
+        jr = [s for s in snaps if s["kind"].startswith(prio)]
+        rest = [s for s in snaps if not s["kind"].startswith(prio)]
         env.rng.shuffle(rest)
         if len(jr) > max_recover:
             keep = sorted(env.rng.sample(range(len(jr)), max_recover))
@@ -681,8 +867,8 @@ def run_case(spec: dict, seed: int, out: Outcome, env: Env, *, actions: list[int
         if second_level and s["index"] % 4 == 0:
             srng = random.Random(rseed)
             sub_filter = lambda kind, meta: kind.startswith("journal_") and srng.random() < 0.5  # noqa: E731
-        rec = R.recover_run(spec, s, rseed, snap_filter=sub_filter)
-        case = dict(base_case, snapshot={"kind": s["kind"], "writes": s["writes"]}, rec_seed=rseed)
+        rec = R.recover_run(spec, s, rseed, snap_filter=sub_filter, server=server)
+        case = dict(base_case, snapshot={"kind": s["kind"], "writes": s["writes"], "stored": s.get("stored", 0)}, rec_seed=rseed)
         out.evaluations += 1
         out.count("recoveries")
         out.count("stop_point:" + s["kind"])
@@ -690,6 +876,8 @@ def run_case(spec: dict, seed: int, out: Outcome, env: Env, *, actions: list[int
         tag = check_recovery(ref, s, rec, case, out, det)
         if tag != "timer":  # after a replay that is known to diverge (timer finding) the process is not a valid execution
             check_process(rec, "recovered run", case, out)
+        if server and tag == "ok" and ref.outcome[0] == "result":
+            check_store(ref, s, rec, case, out, det=det)
         out.count("recovery:" + tag)
         out.count("replayed_entries", len(s["journal"]))
         l2, i2 = k3_lines(rec, [tuple(r) for r in s["journal"]])
@@ -697,7 +885,7 @@ def run_case(spec: dict, seed: int, out: Outcome, env: Env, *, actions: list[int
         if second_level and tag in ("ok", "ok-dirty") and s["index"] % 4 == 0:
             subs = [x for x in rec.snapshots if x["state"]["workflows"].get(R.RUN_ID, {}).get("status") == "PENDING"][:second_level]
             for x in subs:
-                rec2 = R.recover_run(spec, x, rseed * 17 + x["index"])
+                rec2 = R.recover_run(spec, x, rseed * 17 + x["index"], server=server)
                 case2 = dict(case, second={"kind": x["kind"], "writes": x["writes"]})
                 out.evaluations += 1
                 out.count("recoveries_second_level")
@@ -705,6 +893,8 @@ def run_case(spec: dict, seed: int, out: Outcome, env: Env, *, actions: list[int
                 tag2 = check_recovery(rec, x, rec2, case2, out, det and tag == "ok")
                 if tag2 != "timer":
                     check_process(rec2, "twice recovered run", case2, out)
+                if server and tag == "ok" and tag2 == "ok" and ref.outcome[0] == "result":
+                    check_store(rec, x, rec2, case2, out, det=det, uninterrupted=ref)
                 out.count("recovery2:" + tag2)
     # K3: every wait_for_next_task call of every process against the model
     flat = [l for (ls, _i, _c) in streams for l in ls]
@@ -744,6 +934,8 @@ def _selector(desc: dict | None) -> Any:
             return False
         if "writes" in desc and s["writes"] != desc["writes"]:
             return False
+        if "stored" in desc and s.get("stored", 0) != desc["stored"]:
+            return False
         if len(s["journal"]) < desc.get("min_journal", 0):
             return False
         if desc.get("first") and state["taken"] >= 1:
@@ -755,6 +947,7 @@ def _selector(desc: dict | None) -> Any:
 
 
 CORPUS_FILES = ["c27_recv_purged.json", "c27_timer_order.json"]
+CORPUS_FIRST = ["c27_stop_between_journal_and_publication.json"]  # hand-picked stop points, run before everything else
 
 # a three-step chain and a two-way fan-out: every journal length, before and after the INSERT
 CORPUS_INLINE = [
@@ -779,7 +972,7 @@ def run(env: Env) -> Outcome:
 
     out = Outcome()
     out.rule = ("evaluation = one op of the journal object / one wait_for_next_task call diffed against the model, one fresh "
-                "DBOSRuntime run, or one recovery from a crash snapshot; non-trivial = a recovery from a distinct stop point "
+                "DBOSRuntime run (bare or behind the server adapter chain), or one recovery from a crash snapshot; non-trivial = a recovery from a distinct stop point "
                 "(spec, schedule, kind of durable write, number of durable writes) or a scripted wait call with a distinct "
                 "(mode, fallback, timeout, purge, several-done) signature")
     workdir = _tmpdir()
@@ -790,7 +983,7 @@ def run(env: Env) -> Outcome:
             if case.get("kind") == "recover":
                 snap = case.get("snapshot")
                 run_case(case["spec"], case["seed"], out, env, actions=case.get("actions"), other_p=case.get("other_p", 0.0),
-                         det=case.get("det", True), select=_selector(dict(snap, first=True)) if snap else (lambda s: False),
+                         det=case.get("det", True), server=case.get("server"), select=_selector(dict(snap, first=True)) if snap else (lambda s: False),
                          name="replay:" + str(case.get("name", "")))
             elif case.get("kind") == "k1":
                 impl = JournalImpl(workdir)
@@ -803,6 +996,11 @@ def run(env: Env) -> Outcome:
                 if d is not None:
                     out.divergences.append(d)
                     out.violations.append(Violation("C27/journal_object_diverges_from_model", f"op {d.op!r}: model {d.model_out!r} vs real {d.impl_out!r}", case))
+        # ---- hand-picked stop points first
+        for fn in CORPUS_FIRST:
+            c = json.load(open(os.path.join(VERIF, "harness", "corpus", fn)))
+            run_case(c["spec"], c["seed"], out, env, actions=c.get("actions"), other_p=c.get("other_p", 0.0),
+                     select=_selector(c.get("select")), server=c.get("server"), name="corpus:" + fn)
         # ---- K1, K2
         k1(env, out, workdir)
         k2(env, out, workdir)
@@ -810,6 +1008,12 @@ def run(env: Env) -> Outcome:
         for c in CORPUS_INLINE:
             run_case(c["spec"], c["seed"], out, env, other_p=0.5, max_recover=env.budget(12, 60), name="corpus:" + c["name"],
                      second_level=1 if env.tier != "quick" else 0)
+        # the same workflows behind the server's adapter chain (published events go to the workflow store): every stop between
+        # a journal INSERT and the end of the publication of that completion's tick, every journal length
+        for c in CORPUS_INLINE:
+            for intercept in (True, False):
+                run_case(c["spec"], c["seed"], out, env, other_p=0.1, max_recover=env.budget(40, 120), server={"intercept": intercept},
+                         name=f"corpus:{c['name']}:server{'+interceptor' if intercept else ''}", second_level=1 if env.tier != "quick" else 0)
         for fn in CORPUS_FILES:
             path = os.path.join(VERIF, "harness", "corpus", fn)
             if not os.path.exists(path):
@@ -817,14 +1021,18 @@ def run(env: Env) -> Outcome:
                 continue
             c = json.load(open(path))
             run_case(c["spec"], c["seed"], out, env, actions=c.get("actions"), other_p=c.get("other_p", 0.0),
-                     select=_selector(c.get("select")), name="witness:" + fn)
+                     select=_selector(c.get("select")), server=c.get("server"), name="witness:" + fn)
         # ---- generated: deterministic family, timer-free (the guards of the theorems hold: monitors must be silent)
         n_specs = env.budget(3, 20)
         for i in range(n_specs):
             spec = specgen.gen_det_spec(env.rng)
             out.count("spec:det")
-            run_case(spec, env.rng.randrange(1 << 30), out, env, other_p=0.15 if env.tier == "quick" else 0.4,
+            sd = env.rng.randrange(1 << 30)
+            run_case(spec, sd, out, env, other_p=0.15 if env.tier == "quick" else 0.4,
                      max_recover=env.budget(9, 45), name=f"det{i}", second_level=0 if env.tier == "quick" else 1)
+            # ... and behind the server's adapter chain (alternating with / without the event interceptor)
+            run_case(spec, sd, out, env, other_p=0.05, max_recover=env.budget(24, 60), server={"intercept": i % 2 == 0},
+                     name=f"det{i}:server", second_level=0 if env.tier == "quick" else 1)
         # ---- generated: general timer-free workflows (failures, handlers, collects): replayed part only
         for i in range(env.budget(1, 12)):
             spec = specgen.gen_spec(env.rng, family="general", allow_wait=False, allow_retry=False, allow_external=False,
